@@ -19,18 +19,24 @@ def _call(case):
     try:
         return _FN(case)
     except BaseException as e:  # harness bug, or an exception raised by the library in a call the check expected to succeed
-        import sys
-        from . import REPO
+        from . import REPO, VERIF
+        # Walk the traceback: the exception is attributed to the library when the deepest frame that belongs to the
+        # check's own code (/verif) *called into* pulsarbat, i.e. the library (or something it called) raised inside a
+        # call the check expected to succeed.  An exception raised by the check's own code stays a harness error.
+        frames = []
         tb = e.__traceback__
-        last = None
         while tb is not None:
-            last = tb
+            frames.append(tb.tb_frame.f_code)
             tb = tb.tb_next
+        libroot = os.path.realpath(REPO) + os.sep + "pulsarbat"
+        vroot = os.path.realpath(VERIF) + os.sep
+        last_verif = max((i for i, c in enumerate(frames) if os.path.realpath(c.co_filename).startswith(vroot)), default=-1)
         lib = None
-        if last is not None:
-            fn = last.tb_frame.f_code.co_filename
-            if os.path.realpath(fn).startswith(os.path.realpath(REPO) + os.sep + "pulsarbat"):
-                lib = f"{os.path.basename(fn)}:{last.tb_frame.f_code.co_name}:{type(e).__name__}"
+        for c in frames[last_verif + 1:]:
+            if os.path.realpath(c.co_filename).startswith(libroot):
+                lib = f"{os.path.basename(c.co_filename)}:{c.co_name}:{type(e).__name__}"
+        if frames[last_verif + 1:] and not os.path.realpath(frames[last_verif + 1].co_filename).startswith(libroot):
+            lib = None          # the check called something else (numpy, astropy) directly: not attributable to pulsarbat
         return Crash(case, traceback.format_exc()[-3000:], lib, f"{type(e).__name__}: {e}"[:500])
 
 
